@@ -112,6 +112,11 @@ def refs_paired(r, F):
         2 not in backslice(cl, incs_c[0].term.args[0], "prov").args and backslice(cl, incs_c[0].term.args[0], "prov").has_field("record", ENTRY)
     r.require(ok, cl, "clone->inc_refs(1)", "cloning a handle counts exactly one more reference on its own record",
               "RawCacheEntry::clone does not increment the reference count exactly once", ln=cl.lo)
+    drop_last_handle(r, F)
+
+
+def drop_last_handle(r, F):
+    """Drop for RawCacheEntry: exactly one dec_refs(1); release / phantom hand-off only when THAT decrement returned 0"""
     dr = F.method(ENTRY, "drop", "Drop")
     decs = dr.calls_to(DEC)
     if len(decs) != 1:
@@ -124,8 +129,14 @@ def refs_paired(r, F):
         rel = [b.idx for g in [dr] + F.descendants(dr) for b in g.calls_to(r"RawCacheShard::<E, S, I>::release_(im)?mutable$")] if False else \
               [b.idx for b in dr.calls_to(r"^foyer_memory::eviction::Eviction::release$")]
         sends = [b.idx for b in dr.calls_to(r"^foyer_memory::pipe::Pipe::send$")] + [b.idx for b in dr.calls_to(r"EventListener::on_leave$")]
-        found = tables.find_cmp(dr, lambda fn, op: op.place is not None and any(bb == d.idx for bb, _ in backslice(fn, op, "prov").calls),
-                                tables.role_const(0), "comparison of dec_refs() with 0")
+        try:
+            found = tables.find_cmp(dr, lambda fn, op: op.place is not None and any(bb == d.idx for bb, _ in backslice(fn, op, "prov").calls),
+                                    tables.role_const(0), "comparison of dec_refs() with 0")
+        except AnchorMissing:
+            found = []
+            r.fail(dr, "refs==0->release", "the `last handle` test does not use the value returned by the atomic decrement itself (it re-reads the counter or "
+                   "tests something else): two handles dropped concurrently can both (or neither) see zero, so a disk-only entry is notified and piped twice "
+                   "(or never) and the eviction release runs twice", ln=d.term.ln)
         for c, flipped in found:
             tab = tables.table(dr, c, flipped, rel + sends)
             # refs is unsigned: the `lt` row (refs < 0) is infeasible; `eq` must act, `gt` must not
